@@ -1462,6 +1462,17 @@ def parse_unittest(test):
     return testSuite, testName, testClassName
 
 
+# Characters that cannot occur in an XML 1.0 document, not even as
+# character references (see the ``Char`` production of the XML spec).
+_invalid_xml_chars = re.compile(
+    '[^\x09\x0a\x0d\x20-\ud7ff\ue000-\ufffd\U00010000-\U0010ffff]')
+
+
+def _xml_safe(text):
+    """Replace the characters of *text* that XML 1.0 cannot represent."""
+    return _invalid_xml_chars.sub('\ufffd', text)
+
+
 class XMLOutputFormattingWrapper:
     """Output formatter which delegates to another formatter for all
     operations, but also prepares an element tree of test output.
@@ -1551,7 +1562,7 @@ class XMLOutputFormattingWrapper:
             testSuiteNode.set('errors', str(suite.errors))
             testSuiteNode.set('failures', str(suite.failures))
             testSuiteNode.set('hostname', hostname)
-            testSuiteNode.set('name', name)
+            testSuiteNode.set('name', _xml_safe(name))
             testSuiteNode.set('time', str(suite.time))
             testSuiteNode.set('timestamp', timestamp)
 
@@ -1569,8 +1580,9 @@ class XMLOutputFormattingWrapper:
                 testCaseNode = ElementTree.Element('testcase')
                 testSuiteNode.append(testCaseNode)
 
-                testCaseNode.set('classname', testCase.testClassName)
-                testCaseNode.set('name', testCase.testName)
+                testCaseNode.set(
+                    'classname', _xml_safe(testCase.testClassName))
+                testCaseNode.set('name', _xml_safe(testCase.testName))
                 testCaseNode.set('time', str(testCase.time))
 
                 if testCase.error:
@@ -1584,9 +1596,10 @@ class XMLOutputFormattingWrapper:
                     finally:  # Avoids a memory leak
                         del tb
 
+                    errorMessage = _xml_safe(errorMessage)
                     errorNode.set('message', errorMessage.split('\n')[0])
                     errorNode.set('type', str(excType))
-                    text = (errorMessage + '\n\n' + stackTrace)
+                    text = (errorMessage + '\n\n' + _xml_safe(stackTrace))
                     errorNode.text = text
 
                 if testCase.failure:
@@ -1605,9 +1618,10 @@ class XMLOutputFormattingWrapper:
                     finally:  # Avoids a memory leak
                         del tb
 
+                    errorMessage = _xml_safe(errorMessage)
                     failureNode.set('message', errorMessage.split('\n')[0])
                     failureNode.set('type', str(excType))
-                    text = f'{errorMessage}\n\n{stackTrace}'
+                    text = f'{errorMessage}\n\n{_xml_safe(stackTrace)}'
                     failureNode.text = text
 
             # We don't have a good way to capture these yet, so they are empty:
